@@ -34,6 +34,9 @@ func runC19(c *Ctx) {
 	r.Assume("iota.go v1.0.0 guards.IsTrytesOfExactLength, b1t6.EncodeToTrytes/DecodeTrytes (strict per its own tests), x/crypto/blake2b; C04's obligations for bech32.Decode")
 
 	pureScan(c, "C19.pure.no-package-state", c.P.Func("pkg/bech32/address", "ParseBech32"), c.P.Func("pkg/bech32/address", "Bech32"), c.P.Func("pkg/migration", "Encode"), c.P.Func("pkg/migration", "Decode"))
+	// ParseBech32 accepts what bech32.Decode accepts: C04's obligations for Decode (exits, ASCII before folding,
+	// charset, regrouping, bounds) are decided here as well, under C19 keys
+	reKey(c, "C04.", "C19.decode.", func() { runC04(c) })
 	c19Parse(c)
 	c19Migration(c)
 }
